@@ -388,13 +388,188 @@ func (g *textGen) seq(t *rapid.T, depth int) {
 	}
 }
 
+// Size classes: internal bounds, counters and buffer growth only show beyond a size.
+const (
+	shapeDeep = 3 // deep well-nested bracket structure with script changes at various depths
+	shapeLong = 4 // long text: many runs, many paragraphs, long stretches of neutrals
+)
+
+// boundaryDepths are values around which fixed-size stacks/counters typically sit.
+var boundaryDepths = []int{7, 8, 9, 15, 16, 17, 31, 32, 33, 63, 64, 65, 127, 128, 129}
+
+func drawDepth(t *rapid.T) int {
+	switch k := rapid.IntRange(0, 9).Draw(t, "depthClass"); {
+	case k < 4:
+		return rapid.IntRange(4, 80).Draw(t, "depth")
+	case k < 7:
+		return boundaryDepths[rapid.IntRange(0, len(boundaryDepths)-1).Draw(t, "depthBoundary")]
+	default:
+		return rapid.IntRange(8, 40).Draw(t, "depthSmall")
+	}
+}
+
+var (
+	ltrWordScripts = [][]rune{gLatin, gCyrillic, gGreek, gCJK}
+	allWordScripts = [][]rune{gLatin, gCyrillic, gGreek, gCJK, gHebrew, gArabic, gLatin, gHebrew}
+)
+
+func (g *textGen) wordOf(t *rapid.T, pool [][]rune) {
+	rs := pool[rapid.IntRange(0, len(pool)-1).Draw(t, "wscript")]
+	n := rapid.IntRange(1, 2).Draw(t, "wlen")
+	for i := 0; i < n; i++ {
+		g.emit(one(t, rs, "letter"))
+	}
+}
+
+// deep emits prefix, d nested openers (mixed kinds), an inner word, the d closers, suffix; words
+// of other scripts are inserted after openers / before closers at the outermost level, at a few
+// marked depths and at random ones, so that an opener and its closer see different scripts at
+// many depths; optional sibling pairs make the number of pushes exceed the depth.
+func (g *textGen) deep(t *rapid.T) {
+	d := drawDepth(t)
+	pool := ltrWordScripts
+	if rapid.IntRange(0, 9).Draw(t, "deepRTL") < 4 {
+		pool = allWordScripts
+	}
+	kindMode := rapid.IntRange(0, 2).Draw(t, "kindMode")
+	k0 := genPairIdx[rapid.IntRange(0, len(genPairIdx)-1).Draw(t, "kind0")]
+	k1 := genPairIdx[rapid.IntRange(0, len(genPairIdx)-1).Draw(t, "kind1")]
+	pWord := []int{0, 4, 12, 35}[rapid.IntRange(0, 3).Draw(t, "pWord")]
+	pSibling := []int{0, 0, 6, 20}[rapid.IntRange(0, 3).Draw(t, "pSibling")]
+	marked := map[int]bool{}
+	if rapid.IntRange(0, 9).Draw(t, "markOuter") < 8 {
+		marked[0] = true
+	}
+	for i, n := 0, rapid.IntRange(0, 4).Draw(t, "nMarked"); i < n; i++ {
+		marked[rapid.IntRange(0, d-1).Draw(t, "marked")] = true
+	}
+	g.wordOf(t, pool)
+	if rapid.Bool().Draw(t, "sp") {
+		g.emit(' ')
+	}
+	closers := make([]rune, 0, d)
+	for i := 0; i < d; i++ {
+		k := k0
+		switch kindMode {
+		case 1:
+			if i%2 == 1 {
+				k = k1
+			}
+		case 2:
+			k = genPairIdx[rapid.IntRange(0, len(genPairIdx)-1).Draw(t, "kind")]
+		}
+		g.emit(truePairs[k][0])
+		closers = append(closers, truePairs[k][1])
+		v := rapid.IntRange(0, 99).Draw(t, "after")
+		if marked[i] || v < pWord {
+			g.wordOf(t, pool)
+		}
+		if v >= 100-pSibling {
+			g.emit(truePairs[k1][0])
+			g.wordOf(t, pool)
+			g.emit(truePairs[k1][1])
+		}
+	}
+	g.wordOf(t, pool)
+	if rapid.Bool().Draw(t, "inner2") {
+		g.emit(' ')
+		g.wordOf(t, pool)
+	}
+	for i := d - 1; i >= 0; i-- {
+		v := rapid.IntRange(0, 99).Draw(t, "before")
+		if marked[i] && v < 60 || v < pWord {
+			g.wordOf(t, pool)
+		}
+		g.emit(closers[i])
+	}
+	if rapid.IntRange(0, 3).Draw(t, "suffix") > 0 {
+		g.emit(' ')
+		g.wordOf(t, pool)
+	}
+}
+
+// long emits 80..600 runes made of stretches: alternating-script words (many script, direction
+// and face changes), many short paragraphs, long runs of neutrals / marks / digits, and ordinary
+// nested material.
+func (g *textGen) long(t *rapid.T) {
+	target := rapid.IntRange(80, 600).Draw(t, "longLen")
+	for len(g.out) < target {
+		n := rapid.IntRange(5, 150).Draw(t, "stretch")
+		if n > target-len(g.out) {
+			n = target - len(g.out)
+		}
+		end := len(g.out) + n
+		switch rapid.IntRange(0, 6).Draw(t, "stretchKind") {
+		case 0: // one-rune words, script changes at every rune
+			a := allWordScripts[rapid.IntRange(0, len(allWordScripts)-1).Draw(t, "a")]
+			b := allWordScripts[rapid.IntRange(0, len(allWordScripts)-1).Draw(t, "b")]
+			ra, rb := one(t, a, "ra"), one(t, b, "rb")
+			for len(g.out) < end {
+				g.emit(ra, rb)
+			}
+		case 1: // random short words
+			for len(g.out) < end {
+				g.wordOf(t, allWordScripts)
+				if rapid.IntRange(0, 2).Draw(t, "sep") == 0 {
+					g.emit(one(t, gSpaces, "space"))
+				}
+			}
+		case 2: // many paragraphs
+			for len(g.out) < end {
+				if rapid.IntRange(0, 3).Draw(t, "emptyPara") > 0 {
+					g.wordOf(t, allWordScripts)
+				}
+				g.emit(one(t, gParaSeps, "parasep"))
+			}
+		case 3: // a long run of one neutral / mark / digit
+			var r rune
+			switch rapid.IntRange(0, 4).Draw(t, "neutralKind") {
+			case 0:
+				r = one(t, gSpaces, "space")
+			case 1:
+				r = one(t, gMarks, "mark")
+			case 2:
+				r = one(t, gEuDigits, "digit")
+			case 3:
+				r = one(t, gArDigits, "ardigit")
+			default:
+				r = one(t, gPunct, "punct")
+			}
+			for len(g.out) < end {
+				g.emit(r)
+			}
+		case 4: // mixed neutrals
+			pool := [][]rune{gSpaces, gMarks, gEuDigits, gArDigits, gPunct, gNumPunct, gBidiCtl}
+			for len(g.out) < end {
+				g.emit(one(t, pool[rapid.IntRange(0, len(pool)-1).Draw(t, "npool")], "neutral"))
+			}
+		case 5: // vertical-orientation changes
+			for len(g.out) < end {
+				g.emit(one(t, gVertExc, "vertexc"), one(t, gLatin, "latin"), one(t, gCJK, "cjk"))
+			}
+		default: // ordinary material
+			for len(g.out) < end {
+				g.seq(t, 0)
+			}
+		}
+	}
+}
+
 // genText draws a text. shape: 0 normal, 1 ends with an unclosed opener, 2 starts with an
 // unopened closer (these two make one use of a Segmenter observable in the next one if the
-// delimiter stack is not cleared).
+// delimiter stack is not cleared), 3 deep nesting, 4 long text.
 func genText(t *rapid.T, maxLen int, shape int) []rune {
 	g := &textGen{budget: maxLen}
 	p := truePairs[genPairIdx[rapid.IntRange(0, len(genPairIdx)-1).Draw(t, "shapepair")]]
 	switch shape {
+	case shapeDeep:
+		g.budget = 1 << 20
+		g.deep(t)
+		return g.out
+	case shapeLong:
+		g.budget = 1 << 20
+		g.long(t)
+		return g.out
 	case 1:
 		g.seq(t, 1)
 		g.emit(p[0])
@@ -460,7 +635,7 @@ func genCase(t *rapid.T, shape int) *splitCase {
 	c.Text = genText(t, maxLen, shape)
 	n := len(c.Text)
 	switch k := rapid.IntRange(0, 99).Draw(t, "range"); {
-	case k < 35 || shape != 0 && k < 80:
+	case k < 35 || shape != 0 && k < 80 || shape >= shapeDeep && k < 90:
 		c.RunStart, c.RunEnd = 0, n
 	case k < 39:
 		c.RunStart = rapid.IntRange(0, n).Draw(t, "empty")
